@@ -63,6 +63,13 @@ func (w *world) final() {
 		if w.refreshEvery > 0 {
 			bound += w.refreshEvery
 		}
+		if w.prop == "C16" {
+			// the pacing history so far is judged on its own, whether or not the system converges
+			w.checkPacing()
+			if s.Failed() {
+				return
+			}
+		}
 		start := s.Now()
 		ok := t.WaitUntil("converge", bound, func() bool { c, _ := w.converged(); return c })
 		if s.Failed() {
